@@ -237,8 +237,39 @@ func TestVerifC41Toposort(t *testing.T) {
 		g2 := randGraph(true)
 		one(g2, slices.Clone(randRoots(g2)), s, prior)
 	}
+	// the same sequence ranged over twice, and two sequences taken from one Sorter before either
+	// is consumed: every pass must be judged like a fresh run
+	for i := 0; i < nr/2; i++ {
+		s := &Sorter[int, int]{Key: key}
+		g1 := randGraph(true)
+		r1 := randRoots(g1)
+		if i%2 == 0 {
+			seq := s.Sort(r1, g1.dag)
+			out1, _ := c41run(seq, -1)
+			out2, p2 := c41run(seq, -1)
+			evals++
+			c, d := c41judge(g1, r1, out2, p2)
+			if c != "" {
+				fail("rerange:"+c, fmt.Sprintf("%v roots=%v: first pass %v; second pass over the same sequence: %s", g1, r1, out1, d))
+			}
+		} else {
+			g2 := randGraph(true)
+			r2 := randRoots(g2)
+			seqA := s.Sort(r1, g1.dag)
+			seqB := s.Sort(r2, g2.dag)
+			outA, pA := c41run(seqA, -1)
+			outB, pB := c41run(seqB, -1)
+			evals += 2
+			if c, d := c41judge(g1, r1, outA, pA); c != "" {
+				fail("two-seqs:"+c, fmt.Sprintf("first of two sequences taken from one Sorter: %s", d))
+			}
+			if c, d := c41judge(g2, r2, outB, pB); c != "" {
+				fail("two-seqs:"+c, fmt.Sprintf("second of two sequences taken from one Sorter (first: %v roots=%v -> %v): %s", g1, r1, outA, d))
+			}
+		}
+	}
 	for len(samples) < 3 {
 		samples = append(samples, "")
 	}
-	fmt.Printf("BOUNDED: {\"evaluations\":%d,\"distinct\":%d,\"rule\":\"every directed graph on <=%d nodes (all 2^(n*n) adjacency matrices, self-loops and cycles included; %d of the runs cyclic) with every root list of length <=2, the reversed node list and the empty list (%d exhaustive): the output holds exactly the nodes reachable from the roots, each once, and on acyclic input every node after all of its children; plus %d seeded pairs of runs on one Sorter (first run complete, abandoned by break after 1..3 nodes, or ended by a panic; second run on a random DAG on <=7 nodes judged like a fresh run); distinct_nontrivial counts the distinct (graph, roots) cases with at least two reachable nodes\",\"exhaustive\":true,\"bound\":\"<=%d nodes exhaustive; re-use part sampled\",\"samples\":[%q,%q,%q]}\n", evals, distinct, maxN, cyc, exh, nr, maxN, samples[0], samples[1], samples[2])
+	fmt.Printf("BOUNDED: {\"evaluations\":%d,\"distinct\":%d,\"rule\":\"every directed graph on <=%d nodes (all 2^(n*n) adjacency matrices, self-loops and cycles included; %d of the runs cyclic) with every root list of length <=2, the reversed node list and the empty list (%d exhaustive): the output holds exactly the nodes reachable from the roots, each once, and on acyclic input every node after all of its children; plus %d seeded pairs of runs on one Sorter (first run complete, abandoned by break after 1..3 nodes, or ended by a panic; second run on a random DAG on <=7 nodes judged like a fresh run) and half as many runs that range twice over one sequence or take two sequences from one Sorter before consuming either; distinct_nontrivial counts the distinct (graph, roots) cases with at least two reachable nodes\",\"exhaustive\":true,\"bound\":\"<=%d nodes exhaustive; re-use part sampled\",\"samples\":[%q,%q,%q]}\n", evals, distinct, maxN, cyc, exh, nr, maxN, samples[0], samples[1], samples[2])
 }
